@@ -107,6 +107,34 @@ def do_replay(path):
     return 1
 
 
+def self_tests(prop):
+    """thorough tier: is the check still able to see what it is there for?  Every deliberately broken tree kept for this property - the mutants
+    of mutants/<id>.json, every `fix:` commit of known_findings.jsonl undone alone, every seeded change of seeded/<id>-* - is built in a scratch
+    copy / worktree outside /repo and /verif (removed afterwards) and the quick check is run against it; each must be reported with exit 1.
+    A miss is printed as SELFTEST-MISS and recorded; it does not change the verdict on /repo."""
+    out = {}
+    env = dict(os.environ, SUPP_VERIF_NO_SELFTEST='1', VERIF_TIER='quick')
+    env.pop('SUPP_REPO', None)
+    jobs = []
+    if os.path.exists(os.path.join(HERE, 'mutants', prop.lower() + '.json')):
+        jobs.append(('mutants', [sys.executable, os.path.join(HERE, 'tools', 'selftest.py'), prop]))
+    jobs.append(('reverted_fixes', [sys.executable, os.path.join(HERE, 'tools', 'revert_selftest.py'), prop]))
+    jobs.append(('seeded_changes', [sys.executable, os.path.join(HERE, 'tools', 'seed_recheck.py'), '--scratch', '--no-write', prop + '-']))
+    for name, cmd in jobs:
+        try:
+            r = subprocess.run(cmd, cwd=HERE, capture_output=True, text=True, env=env, timeout=6 * 3600)
+            lines = [l for l in r.stdout.splitlines() if l.strip()]
+        except Exception as e:
+            lines = ['self-test did not run: %r' % (e,)]
+        caught = sum(('CAUGHT' in l) or (' caught ' in l) for l in lines)
+        missed = [l[:200] for l in lines if 'MISSED' in l]
+        skipped = sum('SKIP' in l for l in lines)
+        out[name] = {'caught': caught, 'missed': missed, 'skipped': skipped}
+        for l in missed:
+            print('SELFTEST-MISS property=%s %s: %s' % (prop, name, l))
+    return out
+
+
 def main():
     ap = argparse.ArgumentParser()
     ap.add_argument('prop')
@@ -270,6 +298,8 @@ def main():
         'violations': len(violations),
     }
     ev['coverage'].update(extra_info or {})
+    if a.tier == 'thorough' and REPO == '/repo' and not os.environ.get('SUPP_REPO') and not a.only and not os.environ.get('SUPP_VERIF_NO_SELFTEST'):
+        ev['coverage']['self_tests'] = self_tests(prop)
     if not a.only and REPO == '/repo' and not os.environ.get('SUPP_VERIF_KEEP_EVIDENCE'):   # (set by tools/seed_*.py)
         os.makedirs(os.path.join(HERE, 'evidence'), exist_ok=True)
         with open(os.path.join(HERE, 'evidence', prop + '.json'), 'w') as f:
